@@ -117,7 +117,8 @@ def st_dw_case(draw, tier="quick", versions=(6, 2, 3, 7, 8), maxdim=3, lmin_max=
                 rebalancing=draw(st.booleans()), boundary=draw(st.booleans()),
                 margin=draw(st.sampled_from(list(margins))), safety=draw(st.sampled_from(list(safeties))),
                 maxev=draw(st.integers(hi // 3, hi)), maxsteps=draw(st.sampled_from([1, 2, 3, 5, 8, 12, 16, 20, 25, 25])), tape=tape, mode=mode,
-                fseed=draw(st.integers(0, 10 ** 6)))
+                fseed=draw(st.integers(0, 10 ** 6)),
+                legs=draw(st.one_of(st.none(), st.none(), st.lists(st.sampled_from([1, 1, 5, 20, 60]), min_size=1, max_size=6))))
 
 
 @st.composite
@@ -134,7 +135,8 @@ def st_es_case(draw, tier="quick", versions=(0, 1, 2), boundary_choices=(True, T
                 auto=draw(st.booleans()), ssd=draw(st.booleans()),
                 estimator=draw(st.sampled_from(["tape", "tape", "library"])),
                 maxev=draw(st.integers(hi // 3, hi)), maxsteps=draw(st.sampled_from([2, 3, 4, 5, 6, 8, 12, 16])), tape=tape, mode=mode,
-                fseed=draw(st.integers(0, 10 ** 6)))
+                fseed=draw(st.integers(0, 10 ** 6)),
+                legs=draw(st.one_of(st.none(), st.none(), st.lists(st.sampled_from([1, 1, 5, 20, 60]), min_size=1, max_size=6))))
 
 
 # ------------------------------------------------------------------------------------------------------------
@@ -242,11 +244,20 @@ def run_history(sa, case, on_eval=None, before_refine=None, after_refine=None, c
     sa.evaluate_operation = ev
     sa.refine = rf
     res = None
+    legs = None if clean_stop else case.get("legs")
     try:
         with quiet():
-            res = sa.performSpatiallyAdaptiv(case["lmin"], case["lmax"], error_operator(case), tol=-1,
-                                             max_evaluations=case["maxev"] if clean_stop else 10 ** 9,
-                                             print_output=False, **kw)
+            if legs:
+                # the history is cut into several runs: the first one stops right after the initial evaluation, every
+                # further leg is a continue_adaptive_refinement with a slightly larger point limit (run boundaries)
+                res = sa.performSpatiallyAdaptiv(case["lmin"], case["lmax"], error_operator(case), tol=-1,
+                                                 max_evaluations=0, print_output=False, **kw)
+                for inc in list(legs) + [10 ** 9]:
+                    res = sa.continue_adaptive_refinement(tol=-1, max_evaluations=sa.get_total_num_points() + int(inc))
+            else:
+                res = sa.performSpatiallyAdaptiv(case["lmin"], case["lmax"], error_operator(case), tol=-1,
+                                                 max_evaluations=case["maxev"] if clean_stop else 10 ** 9,
+                                                 print_output=False, **kw)
     except StopHistory:
         pass
     finally:
